@@ -53,7 +53,14 @@ pub(super) fn get_highest_index(file_spec: &FileSpec) -> Option<u32> {
         if file.extension().is_some_and(|ext| ext == "gz") {
             file.set_extension("");
         }
-        let name = file.file_stem().unwrap(/*ok*/).to_string_lossy();
+        // without suffix, the name must not be cut at a dot (which can be part of the basename)
+        let name = if file_spec.get_suffix().is_some() {
+            file.file_stem()
+        } else {
+            file.file_name()
+        }
+        .unwrap(/*ok*/)
+        .to_string_lossy();
         let infix = if file_spec.has_basename()
             || file_spec.has_discriminant()
             || file_spec.uses_timestamp()
